@@ -345,6 +345,111 @@ fn concrete_stacks(rep: &mut Report) {
     all_stack_pairs!(rep; map, scale_amp, offset_amp, clip_amp, delay, inspect, scale_amp_per_channel, offset_amp_per_channel, delay0);
 }
 
+// ------------------------------------------------------------------ a user-defined sample format
+// `Sample` is an open trait. `Sm8` is an 8-bit SIGN-MAGNITUDE format (bit 7 = sign, bits 0..6 =
+// magnitude; the family of G.711 bytes), defined purely through the public conversion traits as a
+// relabelling of i8: Signed = i8, Float = f32, every conversion goes through the i8 amplitude. Its
+// raw codes are NOT ordered like its amplitudes. Whatever an adaptor does to frames of Sm8 must be
+// the relabelled result of what it does to the i8 frames of the same amplitudes.
+#[derive(Copy, Clone, Debug, PartialEq, PartialOrd)]
+struct Sm8(u8);
+fn sm_encode(v: i8) -> Sm8 {
+    if v < 0 {
+        Sm8(0x80 | core::cmp::min(-(v as i16), 127) as u8)
+    } else {
+        Sm8(v as u8)
+    }
+}
+fn sm_decode(s: Sm8) -> i8 {
+    let m = (s.0 & 0x7f) as i8;
+    if s.0 & 0x80 != 0 {
+        -m
+    } else {
+        m
+    }
+}
+impl FromSample<Sm8> for i8 {
+    fn from_sample_(s: Sm8) -> Self {
+        sm_decode(s)
+    }
+}
+impl FromSample<i8> for Sm8 {
+    fn from_sample_(s: i8) -> Self {
+        sm_encode(s)
+    }
+}
+impl FromSample<Sm8> for f32 {
+    fn from_sample_(s: Sm8) -> Self {
+        sm_decode(s).to_sample()
+    }
+}
+impl FromSample<f32> for Sm8 {
+    fn from_sample_(s: f32) -> Self {
+        sm_encode(s.to_sample())
+    }
+}
+impl Sample for Sm8 {
+    type Signed = i8;
+    type Float = f32;
+    const EQUILIBRIUM: Self = Sm8(0);
+}
+fn user_defined_format(rep: &mut Report, seed: u64) {
+    let mut rng = Rng::derive(seed, &[44]);
+    // amplitudes within +-60 so that offsets and sums stay in range; -128 has no Sm8 code
+    let amps: Vec<[i8; 2]> = (0..64).map(|i| if i < 6 { [[0, 1], [10, -10], [50, -50], [51, -51], [-3, 60], [-60, 20]][i] } else { [rng.range_i64(-60, 60) as i8, rng.range_i64(-60, 60) as i8] }).collect();
+    let other: Vec<[i8; 2]> = (0..64).map(|_| [rng.range_i64(-40, 40) as i8, rng.range_i64(-40, 40) as i8]).collect();
+    let gains: Vec<[f32; 2]> = (0..64).map(|i| [[0.5, -0.5], [1.0, 0.25], [0.0, -1.0]][i % 3]).collect();
+    let enc = |v: &Vec<[i8; 2]>| -> Vec<[Sm8; 2]> { v.iter().map(|f| [sm_encode(f[0]), sm_encode(f[1])]).collect() };
+    let n = amps.len();
+    macro_rules! pair {
+        ($name:expr, |$s:ident, $o:ident| $e:expr) => {{
+            let case = format!("custom=1;op={}", $name);
+            let r = vmon::catch(std::panic::AssertUnwindSafe(|| -> Result<(), String> {
+                #[allow(unused_variables)]
+                let a: Vec<[i8; 2]> = {
+                    let ($s, $o) = (dasp_signal::from_iter(amps.clone()), dasp_signal::from_iter(other.clone()));
+                    $e
+                }
+                .take(n)
+                .collect();
+                #[allow(unused_variables)]
+                let b: Vec<[Sm8; 2]> = {
+                    let ($s, $o) = (dasp_signal::from_iter(enc(&amps)), dasp_signal::from_iter(other.clone()));
+                    $e
+                }
+                .take(n)
+                .collect();
+                for k in 0..n {
+                    let d = [sm_decode(b[k][0]), sm_decode(b[k][1])];
+                    if d != a[k] {
+                        return Err(format!("output {}: amplitudes {:?} (codes {:?}) but the same adaptor on i8 frames of the same amplitudes gives {:?} (input amplitudes {:?})", k, d, b[k], a[k], amps[k]));
+                    }
+                }
+                Ok(())
+            }));
+            match r {
+                Ok(Ok(())) => {}
+                Ok(Err(d)) => rep.violation(&format!("adaptor|user_defined_sample_format|{}", $name), format!("{} over [Sm8; 2] (8-bit sign-magnitude): {}", $name, d), case),
+                Err(m) => rep.violation(&format!("adaptor|user_defined_sample_format|{}|panic", $name), m, case),
+            }
+            rep.hit("adaptors_over_a_user_defined_sample_format");
+            rep.eval(2 * n as u64);
+        }};
+    }
+    for t in [50i8, 1, 127, 0] {
+        pair!(format!("clip_amp({})", t), |s, o| s.clip_amp(t));
+    }
+    pair!("scale_amp(0.5)", |s, o| s.scale_amp(0.5f32));
+    pair!("scale_amp(-1.0)", |s, o| s.scale_amp(-1.0f32));
+    pair!("offset_amp(4)", |s, o| s.offset_amp(4i8));
+    pair!("offset_amp(-7)", |s, o| s.offset_amp(-7i8));
+    pair!("add_amp", |s, o| s.add_amp(o));
+    pair!("mul_amp", |s, o| s.mul_amp(dasp_signal::from_iter(gains.clone())));
+    pair!("scale_amp_per_channel", |s, o| s.scale_amp_per_channel([0.5f32, -0.25]));
+    pair!("offset_amp_per_channel", |s, o| s.offset_amp_per_channel([3i8, -5]));
+    pair!("delay(2).clip_amp(20)", |s, o| s.delay(2).clip_amp(20i8));
+}
+
 // ------------------------------------------------------------------ copies
 /// clone() / clone_from() of stateful adaptors mid-stream (a delay part-way through its silence)
 fn clone_conformance(rep: &mut Report, seed: u64) {
@@ -436,6 +541,11 @@ fn main() {
     let mut rep = Report::new("C04", &cli.stage);
     if let Some(cs) = &cli.case {
         let m = vmon::cli::parse_case(cs);
+        if m.contains_key("custom") {
+            user_defined_format(&mut rep, cli.seed);
+            flush(&mut rep);
+            finish(&cli, rep, t0);
+        }
         if m.contains_key("stack") {
             concrete_stacks(&mut rep);
             flush(&mut rep);
@@ -464,6 +574,8 @@ fn main() {
     }
     rep.oblige("clone_conformance_scripts", 1);
     clone_conformance(&mut rep, cli.seed);
+    rep.oblige("adaptors_over_a_user_defined_sample_format", 1);
+    user_defined_format(&mut rep, cli.seed);
     rep.oblige("concrete_adaptor_pairs_rewrapped_mid_stream", 243);
     concrete_stacks(&mut rep);
     rep.oblige("by_ref_resumes", 1);
